@@ -225,6 +225,11 @@ def _str(I, x=''):
     return str(x)
 
 
+@reg('slice')
+def _slice(I, *args):
+    return slice(*args)
+
+
 @reg('repr')
 def _repr(I, x):
     return '<repr>'
